@@ -44,6 +44,8 @@ CONSTS = {
     'LZ4F_BLOCK_CHECKSUM_SIZE', 'LZ4F_CONTENT_CHECKSUM_SIZE', 'LZ4F_ENDMARK_SIZE', 'LZ4F_VERSION',
     'LZ4F_max64KB', 'LZ4F_max256KB', 'LZ4F_max1MB', 'LZ4F_max4MB', 'LZ4F_blockLinked', 'LZ4F_blockIndependent',
     'LZ4F_ERROR_maxBlockSize_invalid', 'LZ4F_ERROR_dstMaxSize_tooSmall', 'LZ4F_ERROR_GENERIC', 'LZ4F_ERROR_maxCode',
+    'LZ4F_ERROR_headerVersion_wrong', 'LZ4F_ERROR_reservedFlag_set', 'LZ4F_ERROR_frameHeader_incomplete', 'LZ4F_ERROR_frameType_unknown', 'LZ4F_ERROR_headerChecksum_invalid',
+    'LZ4F_ERROR_blockChecksum_invalid', 'LZ4F_ERROR_contentChecksum_invalid', 'LZ4F_ERROR_frameSize_wrong', 'LZ4F_ERROR_decompressionFailed',
     ], []),
   'lz4io': (['lz4io.c'], ['LZ4IO_MULTITHREAD=1'], [
     'LZ4IO_MAGICNUMBER', 'LEGACY_MAGICNUMBER', 'LZ4IO_SKIPPABLE0', 'LZ4IO_SKIPPABLEMASK', 'LEGACY_BLOCKSIZE',
